@@ -56,7 +56,7 @@ def parts():
         VOCAB,
         TypeItem(SRC, 'struct', 'InFlightRequests'),
         TypeItem(SRC, 'struct', 'RequestData'),
-        TypeItem(SRC, 'struct', 'AlreadyExistsError'),
+        TypeItem(SRC, 'struct', 'AlreadyExistsError', attrs='#[derive(Debug)]'),
         Impl('impl<Res> InFlightRequests<Res>', [
             IMPL_VOCAB,
             Fn(SRC, IMPL, 'len', tags='C11',
